@@ -2674,6 +2674,12 @@ class Interp:
                 ek = self._enum_kind(base)
                 if ek is not None and attr in base.assigns and not attr.startswith('_'):
                     val = m.class_const(base, attr)
+                    e_ = base.assigns[attr][-1]
+                    if isinstance(e_, ast.Call) and not e_.args and _text(e_.func).split('.')[-1] == 'auto':
+                        # enum.auto(): the members are numbered 1, 2, ... in the order of their definition
+                        names_ = [t.id for st_ in base.node.body if isinstance(st_, ast.Assign) for t in st_.targets
+                                  if isinstance(t, ast.Name) and not t.id.startswith('_')]
+                        val = names_.index(attr) + 1 if attr in names_ else TOP
                     if M.is_unknown(val):
                         val = self._class_level_object(base, attr)
                     if isinstance(val, Sym) and val.label.startswith('func:'):
